@@ -393,7 +393,8 @@ class ComputeGraph(MultiDiGraph):
             try:
                 state_vec = np.asarray(variables)
             except ValueError:
-                state_vec = np.asarray([np.squeeze(v) for v in variables])
+                # scalar and vector-valued state variables side by side: every variable contributes its entries
+                state_vec = np.concatenate([np.atleast_1d(np.squeeze(v)) for v in variables], axis=0)
         dtype = 'complex' if 'complex' in state_vec.dtype.name else 'float'
         state_var_key, y = self.add_var(label='y', vtype='state_var', value=state_vec, dtype=dtype)
         rhs_var_key = self._generate_vecfield_var(state_vec, dtype)
@@ -567,7 +568,8 @@ class ComputeGraph(MultiDiGraph):
             try:
                 state_vec = np.asarray(variables)
             except ValueError:
-                state_vec = np.asarray([np.squeeze(v) for v in variables])
+                # scalar and vector-valued state variables side by side: every variable contributes its entries
+                state_vec = np.concatenate([np.atleast_1d(np.squeeze(v)) for v in variables], axis=0)
         dtype = 'complex' if 'complex' in state_vec.dtype.name else 'float'
         state_var_key, y_var = self.add_var(label='y', vtype='state_var', value=state_vec, dtype=dtype)
         try:
